@@ -34,9 +34,9 @@ def main(chk, args):
         req, res = gen.generate_api(api, dict(transport=['grpc', 'rest'], snippets=False), work)
         root = gen.materialise(res, os.path.join(work, 'out'))
         idx = list(range(len(cases)))
-        jobs = [(root, dict(module=c07.MODULE, service='Pg', cases=[dict(i=i, input=cases[i]['input']) for i in idx[s::8]])) for s in range(8)]
+        jobs = [(root, dict(module=c07.MODULE, service='Pg', service_snake='pg', cases=[dict(i=i, input=cases[i]['input']) for i in idx[s::14]])) for s in range(14)]
         obs = {}
-        with ProcessPoolExecutor(8) as ex:
+        with ProcessPoolExecutor(14) as ex:
             for ok, out, err in ex.map(_drive, jobs):
                 if not ok:
                     raise core.MachineryError('endpoint driver failed:\n' + err)
@@ -51,7 +51,7 @@ def main(chk, args):
             if o['error'] != exp['error']:
                 diffs.append(f"error {o['error']} != predicted {exp['error']}")
             elif exp['error'] == 'none':
-                for f in ('endpoint', 'universe', 'cert'):
+                for f in (('endpoint', 'universe') if inp['transport'] == 'instance' else ('endpoint', 'universe', 'cert')):
                     if o[f] != exp[f]:
                         diffs.append(f'{f} {o[f]!r} != predicted {exp[f]!r}')
                 if not o['host']:
